@@ -81,11 +81,13 @@ func (r *bucketRegistry) unregisterBucket(bucket *Bucket) {
 	r.lock.Lock()
 	defer r.lock.Unlock()
 
-	bucketCount := r.bucketCount[name]
-	if bucketCount < 0 {
+	if registered := r.buckets[name]; registered == nil || registered.sqliteDB != bucket.sqliteDB {
+		// This handle belongs to a bucket that was deleted (or already fully closed); a bucket
+		// of the same name registered since then is not ours to release.
 		warn("unregisterBucket couldn't find %v", bucket)
 		return
 	}
+	bucketCount := r.bucketCount[name]
 	if bucketCount == 1 {
 		delete(r.bucketCount, name)
 		// if an in memory bucket, don't close the sqlite db since it will vanish
